@@ -104,7 +104,7 @@ def stateful_sweep(run, pid, prefixes, escalate):
     # (linear model?, editing threshold, symbols with sympy assumptions?, scale of prior and sensor noise)
     # (linear model?, editing threshold, symbols with sympy assumptions?, scale of prior and sensor noise, |.| terms on plain symbols?)
     # (linear model?, editing threshold, symbols with sympy assumptions?, scale of prior and noises, |.| terms on plain symbols?, redundant entries?)
-    variants = [(True, 3.0, False, None, False, False), (False, 3.0, True, None, False, False), (False, None, False, 1e-12, False, False), (False, 3.0, False, None, True, False), (False, 3.0, False, None, False, True)] + ([(True, None, True, None, False, False), (False, 0.5, False, None, False, False), (False, 3.0, False, 1e-9, False, False), (False, None, False, 1e-9, False, False), (False, None, False, None, True, False), (True, None, False, None, False, True)] if escalate else [])
+    variants = [(True, 3.0, False, None, False, False), (False, 3, True, None, False, False), (False, None, False, 1e-12, False, False), (False, 3.0, False, None, True, False), (False, 3.0, False, None, False, True)] + ([(True, None, True, None, False, False), (False, 0.5, False, None, False, False), (False, 3.0, False, 1e-9, False, False), (False, None, False, 1e-9, False, False), (False, None, False, None, True, False), (True, None, False, None, False, True)] if escalate else [])
     fails = 0
     for linear, k_edit, assume, scale, magnitude, redundant in variants:
         run.native_runs += 1
